@@ -83,6 +83,12 @@ def one(job):
     return res
 
 
+# Combinations that are NOT legitimate although their members are (examined by hand, see DESIGN section 12).
+INCOMPATIBLE = [
+    ({"alt6-rampup", "alt-pool-queue-unbuffered"}, "the ramp-up pool adds workers when len(queue) > 0; an unbuffered queue never shows a backlog, so one worker remains: C08's usability clause is really violated"),
+]
+
+
 def main():
     n = int(sys.argv[1]) if len(sys.argv) > 1 else 40
     rng = random.Random(int(sys.argv[2]) if len(sys.argv) > 2 else 1)
@@ -92,7 +98,10 @@ def main():
     pool = [m for m in ALTS if m["props"] and not any(e[1] is None for e in m["edits"]) and "violates" not in m["why"].lower() and "breaks c" not in m["why"].lower()]
     jobs = []
     for k in range(n * 3):  # many candidates conflict; keep drawing
-        jobs.append((k, rng.sample(pool, rng.choice([2, 2, 3]))))
+        members = rng.sample(pool, rng.choice([2, 2, 3]))
+        if any(bad <= {m["id"] for m in members} for bad, _ in INCOMPATIBLE):
+            continue
+        jobs.append((k, members))
     done, out = 0, []
     with ThreadPoolExecutor(3) as ex:
         for r in ex.map(one, jobs):
